@@ -43,6 +43,7 @@ def run(ck):
     ck.rule("C11.R17", "the max-level shortcut in front of the directive table never hides an entry: DirectiveSet::add keeps max_level >= every stored level, also on replacement (as C08.R4)", floor=1)
     ck.rule("C11.R18", "`the directive allows its level` compares levels with a correct total order (as C19.R1/R2/R4)", floor=60)
     ck.rule("C11.R19", "Targets builder steps add exactly the directive they name: with_target -> (Some(target), no field names, level), with_default -> (None, no field names, level), each through DirectiveSet::add, returning the same Targets", floor=2)
+    ck.rule("C11.R20", "inside a matching span the enabled level is the most verbose level among *all* its matched value directives (else the span directives' base level): SpanMatcher::level takes the maximum, SpanMatch::filter yields its level exactly when matched", floor=2)
     ck.rule("C11.R9", "EnvFilter Builder steps keep every other option (same-named field carry-over, as C13.R6)", floor=3)
     ck.rule("C11.R1", "directive vector mutated only by DirectiveSet::add at the binary_search position; max_level kept an upper bound", floor=5)
     ck.rule("C11.R2", "first match in storage order decides; no match disables; siblings agree", floor=4)
@@ -70,6 +71,7 @@ def run(ck):
     match_visitor_rule(ck, F)
     kind_rule(ck, F)
     targets_builder_rule(ck, F)
+    span_matcher_level_rule(ck, F)
     from rules import C19 as _C19
     _C19.order_rules(ck, Facts("default"), "C11.R18")
     C08.directive_add_rule(ck, Facts("release"), rid="C11.R17")
@@ -847,3 +849,30 @@ def targets_builder_rule(ck, F):
             ck.bad("C11.R19", key, where(b.raw["sp"]), "; ".join(sorted(set(problems))) or "no path", fn=b.path)
         else:
             ck.ok("C11.R19", key, fn=b.path)
+
+
+def span_matcher_level_rule(ck, F):
+    lv = next((b for b in F.body_list if b.path.endswith("MatchSet::<tracing_subscriber::filter::env::field::SpanMatch>::level")), None)
+    if ck.anchor("C11.R20", "SpanMatcher::level", lv):
+        rets = [show(p.ret) for p in PathEval(lv).run() if p.end == "return"]
+        key = "SpanMatcher::level = max over the matched field matchers, else base_level"
+        ok = len(rets) == 1 and rets[0].startswith("unwrap_or(max(filter_map(iter(") and "SpanMatch::filter" in rets[0] and rets[0].endswith("arg1.base_level)")
+        # equivalent spellings: fold with max / map(..).max()
+        if not ok and len(rets) == 1:
+            ok = ("max(" in rets[0] or "Ord::max" in rets[0]) and "field_matches" in rets[0] and "base_level" in rets[0] and "find_map(" not in rets[0] and ".next(" not in rets[0]
+        if ok:
+            ck.ok("C11.R20", key, fn=lv.path)
+        else:
+            ck.bad("C11.R20", key, where(lv.raw["sp"]), "level is %s: with several matched value directives of different levels the one that happens to come first decides" % [r[:120] for r in rets], fn=lv.path)
+    fl = F.body(E + "field::SpanMatch::filter")
+    if ck.anchor("C11.R20", "SpanMatch::filter", fl):
+        rows = {}
+        for p in PathEval(fl).run():
+            if p.end == "return":
+                c = [v for t, v in ((show(c[0]), c[1]) for c in p.conds) if t.startswith("is_matched(")]
+                rows[bool(c and c[0] != 0)] = show(p.ret)
+        key = "SpanMatch::filter yields its level exactly when every field matched"
+        if rows == {True: "Option::Some{arg1.level}", False: "Option::None{}"}:
+            ck.ok("C11.R20", key, fn=fl.path)
+        else:
+            ck.bad("C11.R20", key, where(fl.raw["sp"]), "rows %s" % rows, fn=fl.path)
